@@ -181,6 +181,13 @@ func runWorker(t *testing.T) {
 				fmt.Fprintf(os.Stderr, "HARNESS: %s\ncase: %s\n", out.Harness, c.JSON())
 				return
 			}
+			if out.Viol != nil {
+				if k := matchKnown(s.Prop, out.Viol); k != nil {
+					// a recorded, unrepaired genuine defect: count it and go on
+					st.Known[k.What]++
+					return
+				}
+			}
 			if out.Viol != nil && out.Viol.HasProp(s.Prop) {
 				failing = true
 				b := c.JSON()
